@@ -120,6 +120,63 @@ CLAIMED = {
         "solver-enumerated histories under virtual time + symbolic timing values through the real code (CrossHair/z3)",
         "DESIGN.md section 5 C12",
     ),
+
+    "C13": (
+        "The real send_udp / SNMPClientProtocol run on a real asyncio loop with a virtual-time selector and scripted "
+        "endpoints; the per-attempt fault schedule, retry budget and timeout are solver variables enumerated exhaustively; "
+        "transmissions, virtual time of return / Timeout and open sockets are read from the transports' log.",
+        "Trusted: the scripted-transport model of asyncio's selector datagram transport. Real loop-back sockets are outside.",
+        "solver-enumerated fault schedules (CrossHair/z3) on a virtual-time event loop",
+        "DESIGN.md section 5 C13",
+    ),
+    "C14": (
+        "Operations are held suspended at their exchanges by a trampoline; a solver variable per step picks which pending "
+        "exchange completes next, so every interleaving (within 16 / 22 steps) is a path; each result must equal the result "
+        "of the operation run alone, and over v3 every datagram must be accepted by the reference engine.",
+        "Trusted: as C01. Scheduling granularity = network exchanges (the only suspension points of the client).",
+        "solver-enumerated interleavings (CrossHair/z3) of suspended coroutines",
+        "DESIGN.md section 5 C14",
+    ),
+    "C15": (
+        "Symbolic database and value-type rotation; every PyWrapper operation's result is type-walked recursively "
+        "(dictionary keys included) and compared with the pythonised raw result of the same exchange.",
+        "Trusted: as C01.",
+        "solver-enumerated environments (CrossHair/z3) driving the real wrapper",
+        "DESIGN.md section 5 C15",
+    ),
+    "C16": (
+        "One presence bit per table cell (sparse columns, multi-component indexes), neighbours and bulk size symbolic; "
+        "table / bulktable / their wrapper counterparts compared with database-derived rows and with each other, "
+        "exhaustively within the bound.",
+        "Trusted: as C01.",
+        "solver-enumerated tables (CrossHair/z3) driving the real client",
+        "DESIGN.md section 5 C16",
+    ),
+    "C18": (
+        "Histories of configure / reconfigure-enter / exit (normal, exceptional) / request / unknown-setting steps are "
+        "chosen step by step by solver variables and enumerated exhaustively up to 5 / 7 steps against a reference stack "
+        "model; a traced job carries symbolic timeout / retries through replace(), the context manager and the sender.",
+        "Trusted: as C01.",
+        "solver-enumerated histories (CrossHair/z3) + symbolic settings through the real code",
+        "DESIGN.md section 5 C18",
+    ),
+    "C19": (
+        "Sequences of valid / foreign-community / truncated / garbage datagrams and their source addresses are solver "
+        "variables; they are delivered through the real SNMPTrapReceiverProtocol and register_trap_callback decode "
+        "closure inside a real asyncio loop; the callback log must equal the matching notifications with origin and bindings.",
+        "Trusted: as C01; listen() is stubbed (no socket). Known finding F14 (x690) by signature.",
+        "solver-enumerated datagram sequences (CrossHair/z3) through the real trap path",
+        "DESIGN.md section 5 C19",
+    ),
+    "C20": (
+        "Termination as an assertion: x690's decode is wrapped by a call budget proportional to the datagram size; the "
+        "corruption (position and value of one octet, truncation point, nesting depth, every short datagram) is a solver "
+        "variable enumerated exhaustively over 9 entry points (v1/v2c/v3 responses with real and ideal MAC, discovery "
+        "reply, trap listener); after each datagram a valid exchange must succeed.",
+        "Trusted: decode calls as the proxy for time and memory. Known finding F14 (x690 indefinite length) by signature.",
+        "solver-enumerated corruptions (CrossHair/z3) with a decode-call budget turning non-termination into a counter-example",
+        "DESIGN.md section 5 C20",
+    ),
     "C17": (
         "Bounded symbolic execution (CrossHair/z3) of the real constructors, encoders and decoders proves the "
         "wrap/clamp, unsigned-decode and round-trip post-conditions over every path for all integers / all "
